@@ -560,6 +560,13 @@ class Exec:
         pt = self._place_term(body, st, place, addr=True)
         st.memver += 1
         st.events.append(Event("store", bb, frame, body, place=pt, value=val, span=span))
+        if place["proj"][-1] == "deref":
+            # `*r = v` where r is a reference to a local whose value was snapshotted (a closure's captured `&mut x`): later reads
+            # through r in this frame see v, and the frame that owns x gets it back when the closure returns (_inline)
+            pre = place["proj"][:-1]
+            ptr = self._place_term(body, st, {"local": place["local"], "proj": pre}) if pre else st.env.get(place["local"])
+            if isinstance(ptr, tuple) and ptr[0] == "ref" and len(ptr) > 2 and isinstance(ptr[2], tuple) and ptr[2][0] == "local":
+                st.env[("wt", ptr[2][1])] = val
 
     def _proj_key(self, e):
         if e == "deref":
@@ -588,7 +595,9 @@ class Exec:
         for e in proj:
             if e == "deref":
                 if isinstance(cur, tuple) and cur[0] == "ref" and len(cur) > 2:
-                    cur = cur[1]          # reference to a local whose value was snapshotted
+                    # reference to a local whose value was snapshotted (or was since written through this reference)
+                    wt = ("wt", cur[2][1]) if isinstance(cur[2], tuple) and cur[2][0] == "local" else None
+                    cur = st.env[wt] if wt in st.env else cur[1]
                 elif isinstance(cur, tuple) and cur[0] == "ref":
                     cur = cur[1]          # &place : the place itself
                     mem = mem or _mentions_deref_path(cur)
@@ -1056,7 +1065,7 @@ class Exec:
         # const generic parameters: a closure sees its parent's, a function those of the call (`cas::<false>`)
         if cbody.kind == "closure":
             for k, v in st.env.items():
-                if isinstance(k, tuple):
+                if isinstance(k, tuple) and k[0] != "wt":
                     env[k] = v
         elif callee is not None:
             gens = [g for g in sorted(cbody.j.get("generics", []), key=lambda g: g.get("index", 0))
@@ -1079,6 +1088,17 @@ class Exec:
         for (st3, ex, ret) in self._run(cbody, st2, 0, frozenset(), nframe):
             st4 = st3.fork()
             st4.env = dict(saved_env)
+            if cbody.kind == "closure":
+                # what the closure wrote through a captured `&mut x` is x's value in the frame that built the closure
+                cl = args[0] if args else None
+                while isinstance(cl, tuple) and cl[0] == "ref":
+                    cl = cl[1]
+                caps = cl[3] if isinstance(cl, tuple) and cl[0] == "agg" and len(cl) > 3 else ()
+                owned = {c_[2][1] for c_ in caps if isinstance(c_, tuple) and c_[0] == "ref" and len(c_) > 2
+                         and isinstance(c_[2], tuple) and c_[2][0] == "local"}
+                for k, v in st3.env.items():
+                    if isinstance(k, tuple) and k[0] == "wt" and k[1] in owned:
+                        st4.env[k[1]] = v
             yield (st4, ex, ret)
 
 
